@@ -99,7 +99,7 @@ def unit_decision(R, rng, tier):
         a = rng.randint(1, 6)
         lr = list(range(a, a + rng.randint(0, 3)))
         if rng.random() < 0.1:
-            lr = [0, 1]
+            lr = rng.choice([[0, 1], [0]])
         ln = rng.choice([None, rng.randint(1, 7)])
         t = bt.BanditTester(None, False, nl, None)
 
@@ -157,11 +157,27 @@ def system(R, rng, tier):
             if len(lines) in placed:
                 body.append("zz_after = 2  " + placed[len(lines)][0])
             body.append("zz_s = 'x = 1  # nosec'")
+            if rng.random() < 0.3:
+                body.append("# zz \u202e a file-level finding (B613) far from every nosec comment")
             src = "\n".join(body) + "\n"
             progs.append({"src": src, "include": None})
             meta.append({"first": first, "n": len(lines), "placed": {first + i: v for i, v in placed.items() if 0 <= i < len(lines)},
                          "outside": {(first - 1 if i == -1 else first + len(lines)): v for i, v in placed.items() if i in (-1, len(lines))},
                          "tids": tids})
+    # file-level findings: a comment on the first line of the file, a statement, and a bidirectional control character
+    # far below (B613 is reported for that line by a check that sees the whole file)
+    for lines, tids in STMTS:
+        for text, kind, ids in TEXTS:
+            a = rng.choice(tids + [OTHER, "B613"])
+            b = rng.choice(tids + [OTHER, "B613"])
+            placed_text = render(text, a, b)
+            pre = ["import subprocess  # zz"] if any("subprocess." in l for l in lines) else []
+            body = ["zz_before = 1  " + placed_text] + pre
+            first = len(body) + 1
+            body += list(lines) + ["zz_after = 2", "# zz \u202e"]
+            progs.append({"src": "\n".join(body) + "\n", "include": None})
+            meta.append({"first": first, "n": len(lines), "placed": {}, "tids": tids,
+                         "outside": {1: (placed_text, kind, None if ids is None else [a if x == "A" else b for x in ids])}})
     outs, mism, broken = scancorr.run_cases(progs, R, "c02s")
     R.broken.extend(broken)
     for i, tail in mism[:30]:
